@@ -128,28 +128,25 @@ def compute(
 
             freq[pos][None] += weight
 
-            # The following while-loop is equivalent to:
-            #
-            # freq[pos][synset.id] += weight
-            # for path in synset.hypernym_paths():
-            #     for ss in path:
-            #         freq[pos][ss.id] += weight
-            #
-            # ...but it caches hypernym lookups for speed
+            # The following while-loop adds the weight to the synset
+            # and to each of its hypernym ancestors. Each synset
+            # receives the weight once, even when several hypernym
+            # paths converge on it (this also guards against cycles),
+            # and hypernym lookups are cached for speed.
 
-            agenda: list[tuple[Synset, set[Synset]]] = [(synset, set())]
+            agenda: list[Synset] = [synset]
+            seen: set[Synset] = set()
             while agenda:
-                ss, seen = agenda.pop()
-
-                # avoid cycles
+                ss = agenda.pop()
                 if ss in seen:
                     continue
+                seen.add(ss)
 
                 freq[pos][ss.id] += weight
 
                 if ss not in hypernym_cache:
                     hypernym_cache[ss] = ss.hypernyms()
-                agenda.extend((hyp, seen | {ss}) for hyp in hypernym_cache[ss])
+                agenda.extend(hypernym_cache[ss])
 
     return freq
 
